@@ -1,7 +1,9 @@
 """C09 — retention decisions follow the documented keep rules.
-Stages: regenerate Extracted.v from forget.rs; build + audit the Coq theorems;
-validate the calendar model against jiff; correspondence of the extracted model
-with KeepOptions::apply; oracle = extracted documented spec (doc_apply)."""
+Stages: regenerate Extracted.v from forget.rs / grouping.rs / snapshotfile.rs; build + audit the
+Coq theorems; validate the calendar model against jiff; correspondence of the extracted model
+with KeepOptions::apply, oracle = extracted documented spec (doc_apply); correspondence of the
+command level (Grouped::from_items, ForgetGroups::*) with the extracted pipeline, oracles =
+key classes / documented rules per group / forget ids / delete marks computed from the case."""
 import os, sys, json, calendar, datetime
 import vlib
 from vlib import ROOT, REPO, sh, log
@@ -135,9 +137,272 @@ def run_lines(exe, lines, mode=None, timeout=1800):
     return res
 
 
+# ------------------------------------------------------------------ command level (forget)
+def gen_forget_case(rng, maxn):
+    """criterion + keep options + snapshots with host / label / paths: few distinct key values so that
+    groups have several members; tag and path lists unsorted and with repetitions (a StringList is a set)."""
+    hdr, snaps = gen_case(rng, maxn)
+    for _ in range(3):
+        if len(snaps) >= 3 or rng.random() < 0.15: break
+        hdr, snaps = gen_case(rng, maxn)      # mostly cases with enough snapshots to form groups
+    crit = rng.choice([[1, 1, 1, 0], [1, 1, 1, 0], [1, 0, 0, 0], [0, 1, 0, 0], [0, 0, 1, 0], [0, 0, 0, 1],
+                       [0, 0, 0, 0], [1, 1, 1, 1], [rng.randint(0, 1) for _ in range(4)]])
+    nh, nl, npth = rng.choice([1, 2, 3]), rng.choice([1, 1, 2]), rng.choice([1, 2, 3])
+    hosts = rng.sample(range(0, 6), nh)
+    labels = rng.sample(range(0, 4), nl)
+    pathsets = [[rng.randint(0, 3) for _ in range(rng.choice([0, 1, 1, 2, 3]))] for _ in range(npth)]
+    tagsets = [[rng.randint(0, 3) for _ in range(rng.choice([0, 0, 1, 2, 3]))] for _ in range(rng.choice([1, 2, 3]))]
+    out = []
+    for sn in snaps:
+        # sn = [inst, off, id, ntags, tags..., del..., tree]
+        nt = sn[3]
+        rest = sn[4 + nt:]
+        tg = list(rng.choice(tagsets))
+        if rng.random() < 0.3: rng.shuffle(tg)            # same set, other order
+        if tg and rng.random() < 0.2: tg.append(rng.choice(tg))   # same set, a repetition
+        ps = list(rng.choice(pathsets))
+        if rng.random() < 0.3: rng.shuffle(ps)
+        if ps and rng.random() < 0.2: ps.append(rng.choice(ps))
+        out.append(sn[:3] + [len(tg)] + tg + rest + [rng.choice(hosts), rng.choice(labels), len(ps)] + ps)
+    return crit, hdr, out
+
+
+def forget_line(crit, hdr, snaps):
+    return " ".join(str(x) for x in crit) + " " + line_of(hdr, snaps)
+
+
+def parse_forget_line(t):
+    crit = t[:4]
+    hdr = t[4:4 + header_len(t[4:])]
+    i = 4 + len(hdr)
+    n = t[i]; i += 1
+    snaps = []
+    for _ in range(n):
+        j = i + 3
+        nt = t[j]; j += 1 + nt
+        j += 2 if t[j] == 2 else 1
+        j += 1          # tree
+        j += 2          # host label
+        j += 1 + t[j]   # paths
+        snaps.append(t[i:j]); i = j
+    return crit, hdr, snaps
+
+
+def snap_fields(sn):
+    """(inst, off, id, tags, del, delt, tree, host, label, paths) of an extended snapshot token list"""
+    nt = sn[3]; j = 4 + nt
+    dl = sn[j]; delt = sn[j + 1] if dl == 2 else None
+    j += 2 if dl == 2 else 1
+    tree = sn[j]; host = sn[j + 1]; label = sn[j + 2]; npth = sn[j + 3]
+    return sn[0], sn[1], sn[2], sn[4:4 + nt], dl, delt, tree, host, label, sn[j + 4:j + 4 + npth]
+
+
+def parse_groups(txt, rmap):
+    """'key id:k:r ... ; key ...' -> [(key, [(id, keep, reasons)])] with reasons mapped to model names"""
+    gs = []
+    txt = txt.strip()
+    if not txt: return gs
+    for g in txt.split(" ; "):
+        toks = g.split()
+        items = []
+        for tok in toks[1:]:
+            i, k, rs = tok.split(":", 2)
+            rr = [(rmap.get(x, "?" + x) if rmap is not None else x) for x in rs.split("+")] if rs else []
+            items.append((int(i), int(k), "+".join(rr)))
+        gs.append((toks[0], items))
+    return gs
+
+
+def groups_canon(gs):
+    return " ; ".join(" ".join([k] + ["%d:%d:%s" % it for it in items]) for k, items in gs)
+
+
+def parse_result(txt, rmap):
+    """'ok <groups> | ids=a,b' or 'err' -> (groups or None, ids or None, canonical text)"""
+    txt = txt.strip()
+    if not txt.startswith("ok"): return None, None, txt
+    body, _, ids = txt[2:].partition(" | ids=")
+    gs = parse_groups(body, rmap)
+    idl = [int(x) for x in ids.split(",") if x]
+    return gs, idl, "ok " + groups_canon(gs) + " | ids=" + ",".join(map(str, idl))
+
+
+def forget_stage(ctx, model, impl, rmap, broken, only_case=None):
+    rng = ctx.rng
+    ncases = 7000 if ctx.thorough() else 1000
+    maxn = 60 if ctx.thorough() else 40
+    if broken: ncases *= 3
+    cases = []
+    corpus = os.path.join(ctx.pdir, "corpus_forget.txt")
+    if os.path.exists(corpus):
+        for ln in open(corpus):
+            ln = ln.split("#")[0].strip()
+            if ln: cases.append(parse_forget_line([int(x) for x in ln.split()]))
+    while len(cases) < ncases:
+        cases.append(gen_forget_case(rng, maxn))
+    if only_case is not None:
+        cases = [parse_forget_line([int(x) for x in only_case.split()])]
+    in_lines = [forget_line(*c) for c in cases]
+    impl_out = run_lines(impl, in_lines, "forget")
+    idmap = dict(rmap); idmap["if_argument"] = "if_argument"
+    parsed, model_lines = [], []
+    for (crit, hdr, snaps), out in zip(cases, impl_out):
+        parts = out.split(" | fs=")
+        main = parts[0]
+        fs_txt, _, fsids = (parts[1] if len(parts) > 1 else "").partition(" | fsids=")
+        gs, ids, can = parse_result(main, rmap)
+        fs = parse_groups(fs_txt, idmap)
+        parsed.append((gs, ids, can, fs, [int(x) for x in fsids.split(",") if x], out))
+        if gs is None:
+            arr = "-1"
+        else:
+            arr = " ".join([str(len(gs))] + [" ".join([str(len(items))] + [str(i) for i, _, _ in items]) for _, items in gs])
+        model_lines.append(forget_line(crit, hdr, snaps) + " " + arr)
+    mism, viol = [], []
+    hist, nontriv, samples = {}, set(), []
+    n_groups, n_distinct, n_multi, n_mono_groups, n_tie_cases = 0, 0, 0, 0, 0
+    def bump(k, n=1): hist[k] = hist.get(k, 0) + n
+    if model:
+        known_ids_bad = 0
+        # the model needs every id of the arrangement to exist in the input: check first
+        safe_lines = []
+        for (crit, hdr, snaps), (gs, ids, can, fs, fsids, out), ml in zip(cases, parsed, model_lines):
+            inp = sorted(snap_fields(sn)[2] for sn in snaps)
+            got = sorted(i for _, items in (gs or []) for i, _, _ in items)
+            if gs is not None and got != inp:
+                safe_lines.append(forget_line(crit, hdr, snaps) + " -1")
+            else:
+                safe_lines.append(ml)
+        model_out = run_lines_par(model, safe_lines, "forget")
+        for idx, ((crit, hdr, snaps), (gs, ids, can, fs, fsids, out), mo) in enumerate(zip(cases, parsed, model_out)):
+            case = in_lines[idx]
+            if out.strip().startswith("panic"):
+                viol.append(("forget pipeline panics", case, out, "")); continue
+            sec = dict((x.split(" ", 1) + [""])[:2] for x in mo.split(" || "))
+            ex_gs, ex_ids, ex_can = parse_result(sec.get("EXEC", ""), None)
+            sp_can = parse_result(sec.get("SPEC", ""), None)[2]
+            arr_can = parse_result(sec.get("ARR", ""), None)[2] if sec.get("ARR", "none") != "none" else None
+            o = dict(x.split("=", 1) for x in sec.get("O", "").split())
+            fields = [snap_fields(sn) for sn in snaps]
+            inp_ids = sorted(f[2] for f in fields)
+            now = hdr[0]
+            bump("crit_" + "".join(map(str, crit)))
+            bump("snaps_%s" % ("0" if not snaps else "1-5" if len(snaps) <= 5 else "6-20" if len(snaps) <= 20 else ">20"))
+            # ---- from_snapshots: oracle computed here from the case itself
+            exp_fs_rm = [f[2] for f in fields if not (f[4] == 1 or (f[4] == 2 and f[5] >= now))]
+            exp_fs = [("h=-,l=-,p=-,t=-", [(f[2], 0 if f[2] in exp_fs_rm else 1, "if_argument" if f[2] in exp_fs_rm else "snapshot") for f in fields])]
+            if fsids != exp_fs_rm or fs != exp_fs:
+                viol.append(("from_snapshots does not keep exactly the snapshots protected by their own delete mark", case, out,
+                             "expected fs=%s fsids=%s" % (groups_canon(exp_fs), exp_fs_rm)))
+            m_fs = sec.get("FS", "")
+            if "fs=%s | fsids=%s" % (groups_canon(fs), ",".join(map(str, fsids))) != m_fs.strip():
+                mism.append((case, "from_snapshots", "fs=%s | fsids=%s" % (groups_canon(fs), ",".join(map(str, fsids))), m_fs))
+            # ---- retention per group
+            if gs is None:
+                bump("err")
+                if ex_can != can: mism.append((case, "error/ok", can, ex_can))
+                continue
+            got = sorted(i for _, items in gs for i, _, _ in items)
+            if got != inp_ids:
+                viol.append(("grouping is not a partition of the input: snapshots lost or duplicated", case, out, "input ids %s" % inp_ids)); continue
+            if o.get("wf") != "1":
+                viol.append(("groups are not the key classes in ascending key order with members sorted newest first", case, out, "")); continue
+            # key classes computed here (independent of the model): same group iff same selected fields
+            def pykey(f):
+                return (f[7] if crit[0] else None, f[8] if crit[1] else None,
+                        tuple(sorted(set(f[9]))) if crit[2] else None, tuple(sorted(set(f[3]))) if crit[3] else None)
+            kof = {f[2]: pykey(f) for f in fields}
+            classes = {}
+            for f in fields: classes.setdefault(pykey(f), set()).add(f[2])
+            got_classes = [set(i for i, _, _ in items) for _, items in gs]
+            if sorted(map(sorted, classes.values())) != sorted(map(sorted, got_classes)):
+                viol.append(("two snapshots are in the same group although their keys differ, or apart although equal", case, out,
+                             "expected classes %s" % sorted(map(sorted, classes.values())))); continue
+            n_groups += len(gs)
+            if any(len(items) > 1 for _, items in gs): n_multi += 1
+            if len(gs) > 1: bump("cases_with_several_groups")
+            if can != arr_can:
+                mism.append((case, "retention per group (order taken from the implementation)", can, arr_can))
+            if o.get("distinct") == "1":
+                n_distinct += 1
+                if can != ex_can: mism.append((case, "result depends on the sorts although times are distinct inside every group", can, ex_can))
+                if ex_can != sp_can: mism.append((case, "executable pipeline vs sort-free reading", ex_can, sp_can))
+            else:
+                n_tie_cases += 1
+            # documented rules per group
+            docs = o.get("doc", "").split(",") if gs else []
+            monos = o.get("mono", "")
+            exp_rm, all_mono = [], True
+            for gi, (key, items) in enumerate(gs):
+                flags = "".join(str(k) for _, k, _ in items)
+                for f in flags: bump("keep" if f == "1" else "remove")
+                for _, _, rs in items:
+                    for rr in rs.split("+"):
+                        if rr: bump("reason_" + rr)
+                if gi < len(monos) and monos[gi] == "1":
+                    n_mono_groups += 1
+                    if flags != docs[gi]:
+                        viol.append(("kept set of a group differs from the documented keep rules applied to that group", case, out,
+                                     "group %s: documented keep flags (newest first) %s" % (key, docs[gi])))
+                    exp_rm += [i for (i, _, _), d in zip(items, docs[gi]) if d == "0"]
+                else:
+                    all_mono = False
+                    exp_rm += [i for i, k, _ in items if k == 0]
+            if ids != exp_rm or len(set(ids)) != len(ids):
+                viol.append(("into_forget_ids does not return exactly the snapshots the rules remove, each once", case, out, "expected ids %s" % exp_rm))
+            if ids and len(ids) < len(inp_ids) and len(gs) > 1: nontriv.add(case)
+            if len(samples) < 3 and 2 <= len(snaps) <= 6 and len(gs) > 1:
+                samples.append({"case": case, "impl": can, "model": sec.get("ARR"), "oracle": sec.get("O")})
+    cov = ctx.coverage
+    cov["forget_level"] = {
+        "evaluations": len(cases), "distinct_nontrivial": len(nontriv),
+        "rule": "cases = group criterion (16 combinations, default host+label+paths weighted) x keep options (as above) x up to %d snapshots over 1-3 hosts, 1-2 labels, 1-3 path sets, 1-3 tag sets (unsorted, repeated elements, empty), equal times, delete marks; non-trivial = several groups, some but not all ids returned" % maxn,
+        "groups_total": n_groups, "cases_with_a_multi_member_group": n_multi, "cases_times_distinct_per_group": n_distinct,
+        "cases_with_equal_times_in_a_group": n_tie_cases, "groups_checked_against_documented_rules": n_mono_groups,
+        "model_impl_mismatches": len(mism), "oracle_violations": len(viol), "distribution": hist, "samples": samples}
+    cov["evaluations"] = cov.get("evaluations", 0) + len(cases)
+    cov["distinct_nontrivial"] = cov.get("distinct_nontrivial", 0) + len(nontriv)
+    cov["traces_validated_against_impl"] = cov.get("traces_validated_against_impl", 0) + len(cases)
+    cov["disagreements_checked"] = cov.get("disagreements_checked", 0) + len(mism) + len(viol)
+    for what, case, out, extra in viol[:50]:
+        ctx.violation(what, {"mode": "forget", "case": case, "impl": out, "expected": extra,
+                             "how_to_replay": "echo '<case>' > f; .cache/target*/debug/c09 f forget   (format: harness/src/bin/c09.rs forget_case)"},
+                      signature=None)
+    return mism, viol
+
+
+def run_lines_par(exe, lines, mode=None, nproc=4):
+    """the extracted model is the slow side (doc_apply is quadratic over exact integer arithmetic, a few
+    large cases dominate): deal the cases round-robin to up to four processes; output order = input order"""
+    if len(lines) < 200 or nproc < 2:
+        return run_lines(exe, lines, mode)
+    import subprocess
+    chunks, procs = [], []
+    for i in range(nproc):
+        ch = lines[i::nproc]
+        path = os.path.join(vlib.BUILD, "C09", "in_%d_%d.txt" % (os.getpid(), i))
+        open(path, "w").write("\n".join(ch) + "\n")
+        chunks.append((path, len(ch)))
+        procs.append(subprocess.Popen(["nice", "-n", "10", exe, path] + ([mode] if mode else []),
+                                      stdout=subprocess.PIPE, stderr=subprocess.PIPE, text=True))
+    outs = [None] * len(lines)
+    for i, ((path, n), pr) in enumerate(zip(chunks, procs)):
+        try:
+            out, err = pr.communicate(timeout=1800)
+        finally:
+            os.remove(path)
+        res = out.splitlines()
+        if pr.returncode != 0 or len(res) != n:
+            raise RuntimeError("%s failed rc=%s (%d of %d lines)\n%s" % (exe, pr.returncode, len(res), n, err[-2000:]))
+        outs[i::nproc] = res
+    return outs
+
+
 def run(ctx):
     rng = ctx.rng
     cov = ctx.coverage
+    import time as _t
+    stage_t = {}; _t0 = _t.time()
     # 1. facts from the source
     extract_fail = None
     try:
@@ -147,17 +412,24 @@ def run(ctx):
             open(p, "w").write(txt)
     except ExtractError as e:
         extract_fail = str(e)
-        meta = None
+        try:
+            meta = ext.gen_base(REPO)[1]     # the reason strings, so that the correspondence below still reads the output
+        except ExtractError:
+            meta = None
     # 2. theorems
     r = vlib.proof_stage(ctx)
     if extract_fail:
         r["ok"] = False
         r["failures"].append("fact extraction from forget.rs failed: " + extract_fail)
-    cov["trusted_base"] += ["props/C09/extract.py (translator of equal_* predicates, keep_checks rows and is_valid into Extracted.v)",
+    cov["trusted_base"] += ["props/C09/extract.py (translator of equal_* predicates, keep_checks rows, is_valid, group key / order / equality, sort closures, into_forget_ids filter, from_snapshots keep flag into Extracted.v; exact-shape checks of from_items, from_grouped_snapshots_with_retention, must_keep, must_delete)",
                             "jiff civil-time fields and span addition (validated against Calendar.v on every run, not proved)"]
     ctx.assumptions += ["time zones are fixed UTC offsets (TimeZone::fixed); DST transitions of named zones are not modelled",
-                        "instants are whole seconds", "order of snapshots with equal instants is whatever the unstable sort yields; the model is run on the order the implementation produced",
-                        "runs_are_periods has the decidable premise keys_monotone (evaluated on every case; see coverage.keys_monotone_true)"]
+                        "instants are whole seconds",
+                        "the two unstable sorts (Grouped::from_items by group key, KeepOptions::apply by time) return a sorted permutation of their input: theorems quantify over all such functions; the specification is checked on every generated case (grouping_wf)",
+                        "order of snapshots with equal instants is whatever the unstable sort yields; the model is run on the order the implementation produced, and additionally with its own stable sorts whenever times are distinct inside every group",
+                        "keys_monotone (premise of runs_are_periods) is derived for lists sorted by time whose snapshots share one UTC offset (keys_monotone_derived); for mixed offsets it stays a decidable premise evaluated per case (coverage.keys_monotone_true)",
+                        "hostname / label strings are numbers in the model; the harness maps them to strings order-preservingly"]
+    stage_t["proofs"] = round(_t.time() - _t0, 1); _t0 = _t.time()
     # 3. builds
     try:
         model = vlib.build_model("C09")
@@ -172,6 +444,7 @@ def run(ctx):
         for (p, r1, w, r2) in meta["reasons"]:
             rmap[r1.replace(" ", "_")] = "c:" + PN[p]
             rmap[r2.replace(" ", "_")] = "w:" + PN[w]
+    stage_t["builds"] = round(_t.time() - _t0, 1); _t0 = _t.time()
     # 4. calendar validation against jiff
     ncal = 0
     cal_bad = []
@@ -207,8 +480,9 @@ def run(ctx):
             r["failures"].append("calendar model disagrees with jiff on %d of %d cases, e.g. %s" % (len(cal_bad), ncal, cal_bad[0]))
     cov["calendar_cases_vs_jiff"] = ncal
     cov["calendar_exhaustive_days_1900_2400"] = bool(ctx.thorough())
+    stage_t["calendar"] = round(_t.time() - _t0, 1); _t0 = _t.time()
     # 5. correspondence
-    ncases = 20000 if ctx.thorough() else 2500
+    ncases = 12000 if ctx.thorough() else 2500
     maxn = 60 if ctx.thorough() else 40
     if not r["ok"]:
         ncases *= 4        # an obligation is broken: widen the search for a concrete failing input
@@ -221,9 +495,13 @@ def run(ctx):
     while len(cases) < ncases:
         h, s = gen_case(rng, maxn)
         cases.append(("gen", (h, s)))
+    replay_forget = None
     if ctx.replay:
         rp = json.load(open(ctx.replay))
-        cases = [("corpus", rp["witness"]["case"])]
+        if rp["witness"].get("mode") == "forget":
+            replay_forget = rp["witness"]["case"]; cases = []
+        else:
+            cases = [("corpus", rp["witness"]["case"])]
     # implementation on the unsorted input
     in_lines = []
     parsed = []
@@ -249,7 +527,7 @@ def run(ctx):
     mism, viol, nontriv, mono_true, hist = [], [], set(), 0, {}
     samples = []
     if model:
-        model_out = run_lines(model, model_lines)
+        model_out = run_lines_par(model, model_lines)
         for idx, ((h, s), ic, mo, ml, order) in enumerate(zip(parsed, impl_canon, model_out, model_lines, orders)):
             mc, _, oracle = mo.partition(" | ")
             hist["snaps_%s" % ("0" if not s else "1-5" if len(s) <= 5 else "6-20" if len(s) <= 20 else ">20")] = hist.get("snaps_%s" % ("0" if not s else "1-5" if len(s) <= 5 else "6-20" if len(s) <= 20 else ">20"), 0) + 1
@@ -284,6 +562,16 @@ def run(ctx):
         sig = classify(case, ic, extra)
         ctx.violation(what, {"case": case, "impl": ic, "expected": extra,
                              "how_to_replay": "echo '<case>' | .cache/target/debug/c09 -   (format: harness/src/bin/c09.rs)"}, signature=sig)
+    stage_t["apply_level"] = round(_t.time() - _t0, 1); _t0 = _t.time()
+    # 7. the command level: grouping, retention per group, into_forget_ids, from_snapshots
+    fmism, fviol = [], []
+    if model and (replay_forget is not None or not ctx.replay):
+        fmism, fviol = forget_stage(ctx, model, impl, rmap, not r["ok"], replay_forget)
+    stage_t["forget_level"] = round(_t.time() - _t0, 1)
+    cov["stage_wall_s"] = stage_t
+    if fmism and not fviol and not viol:
+        ctx.violation("correspondence broken: extracted model of the forget pipeline (grouping / retention per group / into_forget_ids / from_snapshots) disagrees with the implementation (%d cases) although every oracle holds" % len(fmism),
+                      {"correspondence": "props/C09 Groups.v vs Grouped::from_items + ForgetGroups", "first": {"case": fmism[0][0], "what": fmism[0][1], "impl": fmism[0][2], "model": fmism[0][3]}}, no_input=True)
     if mism and not viol:
         # the model and the code disagree, but the documented result is still met on every case:
         # the correspondence is broken, the property is no longer shown to hold
@@ -292,8 +580,7 @@ def run(ctx):
     vlib.finish_broken_obligations(ctx)
 
 
-def parse_line(t):
-    """inverse of line_of for corpus lines"""
+def header_len(t):
     i = 2
     for _ in range(9):
         i += 2 if t[i] == 1 else 1
@@ -304,6 +591,12 @@ def parse_line(t):
         n = t[i]; i += 1
         for _ in range(n):
             i += 1 + t[i]
+    return i
+
+
+def parse_line(t):
+    """inverse of line_of for corpus lines"""
+    i = header_len(t)
     hdr = t[:i]
     n = t[i]; i += 1
     snaps = []
